@@ -38,7 +38,7 @@ CLAIMED = {
 CLAIMED["C07"] = dict(engine="streamsim", cat="exploration", ref="5.8",
     technique="deterministic simulation of the import file system: the real compiler runs over a seeded fs.FS whose file set, import graph (cycles, nesting, missing files, directories), delivery (chunking, short and empty reads) and failures (open error, read error after k bytes, directory, content changing between opens) come from the tape; checked against a reference model of the import graph and against one-shot delivery",
     text="Import slice of C07 only. Decides, for sampled file sets: the compilation terminates within a budget counted in file-system operations whatever the import graph (cycles of every length), returns a diagram or a non-empty list of errors that all carry a source position, reports (never silently compiles) a reachable import cycle and reports none where there is none, never swallows a failing open or read, and gives the same result however the files are cut into reads. Crashes of the compiler proper on a program (independent of delivery) are the input-space half of C07: sampled, counted in the evidence, not reported. Sampling, not proof.",
-    note="Trusted: the reference model of the import graph (depth-first search; the real parser tells it which files have syntax errors and are therefore never compiled); the fault reader shared with C01. CPU time is not observed: the 'time bound' is a bound on opens (4000) and reads (8*size+2000 per file).")
+    note="Trusted: the reference model of the import graph (depth-first search; the real parser tells it which files have syntax errors and are therefore never compiled); the fault reader shared with C01. CPU time is not observed: the 'time bound' is a bound on opens (100 000) and reads (8*size+2000 per file).")
 
 PENDING = {
 }
